@@ -11,6 +11,7 @@ namespace Asphalt
 inductive BgBeh
   | endsAfter (d : Nat) (exc : Option Nat)     -- runs d ticks, then returns or raises Exception `exc`
   | forever                                    -- runs until cancelled through its handle
+  | failsWhenCancelled (e : Nat)               -- runs until cancelled; its clean-up then raises Exception `e`
   deriving DecidableEq, Repr
 
 structure BgSpec where
@@ -114,6 +115,15 @@ def fstep? (s : FSt) (l : FLab) : Option FSt :=
           | .absent => log { (s.finish h) with crashed := s.crashed ++ [e] }
           | .returns _ => log (s.setStatus h (.raisedPending e))
         else none
+      | st', .failsWhenCancelled e, some e' =>
+        -- an exception escaping a task that was cancelled through its handle is an exception like any other
+        -- (after a crash took the application down every task still running is cancelled, asked or not)
+        if e == e' && (st' == .cancelled || (!s.crashed.isEmpty && (st' == .running || st' == .cancelAsked))) then
+          match s.handler with
+          | .absent => log { (s.finish h) with crashed := s.crashed ++ [e] }
+          | .returns _ => log (s.setStatus h (.raisedPending e))
+        else none
+      | .cancelled, .failsWhenCancelled _, none => if !s.crashed.isEmpty then log (s.finish h) else none
       | .cancelled, _, none => log (s.finish h)
       | _, _, _ => if !s.crashed.isEmpty && exc.isNone then log (s.finish h) else none
     | _, _ => none
